@@ -535,7 +535,9 @@ func TestC08(t *testing.T) {
 		}()
 		prev := j.from
 		for step, to := range j.chain {
-			next := filepath.Join(dir, fmt.Sprintf("c%d-%d.%s", ci, step+1, to))
+			// the hops alternate between two output paths, as a user re-using scratch files does: from the
+			// third hop on the output file already exists and holds the (longer or shorter) result of an earlier hop
+			next := filepath.Join(dir, fmt.Sprintf("c%d-%s.tmp", ci, []string{"a", "b"}[step%2]))
 			files = append(files, next)
 			R.Trans(1)
 			var err error
